@@ -147,6 +147,31 @@ def preempt_lockstep_scenario(seed):
     return {"layer": "S", "algo": "priority", "cfg": cfg, "pipes": pipes, "steps": [], "arrivals": arrivals}
 
 
+def resume_elsewhere_scenario(seed):
+    """priority on two or three pools: long and short batch pipelines fill all pools (they are dealt out pool by pool), queries arrive on the full
+    pools and containers are suspended on every pool; by the time the write-outs end the short pipelines are done, so the pool with most free RAM --
+    where the pre-empted work has to go -- is not the pool it was suspended from"""
+    rng = random.Random(seed)
+    tps = rng.choice([2, 4, 8])
+    npools = rng.choice([2, 2, 3])
+    ram = rng.choice([80, 160])
+    cfg = {"tps": tps, "multi": True, "over": False, "npools": npools, "cpus": 10, "ram": fstr(ram)}
+    short_pool = rng.randrange(npools)
+    pipes = []
+    for k in range(10 * npools):
+        # the short ones outlast the write-outs (<= 6 ticks here) by a little, the long ones and the queries outlast everything
+        n = rng.randint(10, 13) if k % npools == short_pool else rng.randint(34, 40)
+        pipes.append({"prio": 3, "ops": [gen_e.simple_op(tps, 1, fixed=F(1, 64), parents=[i - 1] if i else []) for i in range(n)]})
+    nq = rng.randint(2, 4)
+    for _ in range(nq):
+        pipes.append({"prio": 1, "ops": [gen_e.simple_op(tps, rng.randint(40, 50), fixed=F(1, 64))]})
+    nticks = 60
+    arrivals = [[] for _ in range(nticks)]
+    arrivals[0] = list(range(10 * npools))
+    arrivals[1] = [10 * npools + k for k in range(nq)]
+    return {"layer": "S", "algo": "priority", "cfg": cfg, "pipes": pipes, "steps": [], "arrivals": arrivals}
+
+
 def join_scenario(seed, algo="priority"):
     """single-operator containers on several roomy pools, a pipeline a -> {b, c (, e)} -> d whose middle operators take equally long: they are started in the
     same round, finish in the same tick and are reported together, at which moment the join operator d becomes ready.  It must be queued and assigned once."""
